@@ -443,6 +443,7 @@ def sigma6(model, profile='quick'):
         if op is not None:
             cand.append([op])
     add(add_fp(cfg, 'A', '/', 'boot'))
+    add(add_fp(cfg, 'A', '/', 'c4097'))      # the same names with another length (re-added after a removal)
     add(add_fp(cfg, 'B', '/', 'c2049'))
     add(add_fp(cfg, 'A', 'D1', 'c1'))
     add(add_fp(cfg, 'LONGRR', '/', 'c1') if cfg.get('rr') else None)
@@ -632,6 +633,17 @@ def sigma_ce(model, profile='quick'):
     return out
 
 
+def sigma_ce_reopen(model, profile='quick'):
+    """sigma_ce with REOPEN as a step: holes in a continuation block that only exist after the image was parsed again."""
+    out = sigma_ce(model, profile)
+    if out or model.iso:
+        if model.generation < 1 and len(model.iso) > 1:
+            m2 = enabled(model, [['REOPEN', {}]])
+            if m2 is not None:
+                out.append(([['REOPEN', {}]], m2))
+    return out
+
+
 CFG_RR = [mk(1, rr='1.09'), mk(2, rr='1.10', xa=True), mk(3, rr='1.12'), mk(3, joliet=3, rr='1.12', udf=True)]
 
 
@@ -763,6 +775,17 @@ def sigma_readd(model, profile='quick'):
     for step in cand:
         m2 = enabled(model, step)
         if m2 is not None:
+            out.append((step, m2))
+    return out
+
+
+def sigma_readd_q(model, profile='quick'):
+    """sigma_readd plus QUERY (walk, look up and read everything through the API) as a step: lookup . remove . re-add . read."""
+    out = sigma_readd(model, profile)
+    cfg = model.cfg
+    for step in ([add_fp(cfg, 'A', '/', 'c2s7')], [['QUERY', {}]]):
+        m2 = enabled(model, step)
+        if m2 is not None and step[0] is not None:
             out.append((step, m2))
     return out
 
